@@ -64,19 +64,34 @@ func c14B1t6(c *Ctx) {
 		r.Check(len(loopIn) == 1 && len(loopOut) == 1, key+".loop-bound", c.P.Pos(fn.Pos()), "group loop runs for j = 0, %s, … while j <= len-%s (every whole group, nothing beyond)", g, g)
 		grp := "call<*>(" + v.readPat[0] + ", " + v.readPat[1] + ")"
 		// the group routine reports acceptance as (byte, ok) or as (byte, error)
-		okE := plainEdges(edgesMatching(b, "ext#1("+grp+")", "bin<==>(ext#1("+grp+"), nil)"))
+		// … or as one int: the byte (0..255), negative for an invalid group (decided on all 27×27 pairs, C14.group-tables.decode)
+		okPats := []string{"ext#1(" + grp + ")", "bin<==>(ext#1(" + grp + "), nil)"}
+		val := "ext#0(" + grp + ")"
+		okE := plainEdges(edgesMatching(b, okPats...))
 		badE := plainEdges(edgesMatching(b, "un<!>(ext#1("+grp+"))", "bin<!=>(ext#1("+grp+"), nil)"))
-		for _, ce := range edgesMatching(b, "ext#1("+grp+")", "bin<==>(ext#1("+grp+"), nil)") {
+		if len(okE) == 0 && len(badE) == 0 {
+			okPats = []string{"bin<>=>(" + grp + ", 0)", "bin<!=>(" + grp + ", -1)"}
+			okE = plainEdges(edgesMatching(b, okPats...))
+			badE = plainEdges(edgesMatching(b, "bin<<>("+grp+", 0)", "bin<==>("+grp+", -1)"))
+			val = "conv<byte>(" + grp + ")"
+		}
+		for _, ce := range edgesMatching(b, okPats...) {
 			strip := func(lit *ana.Term) *ana.Term {
 				for lit.Op == "un" || lit.Op == "bin" {
 					lit = lit.Arg(0)
 				}
 				return lit
 			}
-			gf := calleeOf(strip(ce.Lit).Arg(0))
+			callOf := func(x *ana.Term) *ana.Term {
+				if x.Op == "ext" {
+					return x.Arg(0)
+				}
+				return x
+			}
+			gf := calleeOf(callOf(strip(ce.Lit)))
 			// look through a per-variant wrapper to the shared group routine
-			if x := strip(expandAll(c, ce.Lit)); x.Op == "ext" && calleeOf(x.Arg(0)) != nil {
-				gf = calleeOf(x.Arg(0))
+			if x := callOf(strip(expandAll(c, ce.Lit))); x.Op == "call" && calleeOf(x) != nil {
+				gf = calleeOf(x)
 			}
 			groupFns = append(groupFns, gf)
 		}
@@ -134,7 +149,7 @@ func c14B1t6(c *Ctx) {
 			for _, ins := range blk.Instrs {
 				if st, ok := ins.(*ssa.Store); ok {
 					at, vt := b.Of(st.Addr, st), b.Of(st.Val, st)
-					if _, m := ana.Match("iaddr(_, ind<+1>(0))", at); m && matches("ext#0("+grp+")", vt) {
+					if _, m := ana.Match("iaddr(_, ind<+1>(0))", at); m && matches(val, vt) {
 						stored = mustPass(fn, blk, okE)
 					}
 				}
@@ -144,7 +159,7 @@ func c14B1t6(c *Ctx) {
 			// the output built by appending the decoded byte of every accepted group (dst = append(dst, b))
 			for _, ci := range ana.CallsTo(fn, "builtin.append") {
 				t := b.CallTermAt(ci)
-				if w, _ := ana.Find("store(iaddr(self, 0), ext#0("+grp+"))", t); w != nil && t.Op == "concat" && len(t.Args) == 2 {
+				if w, _ := ana.Find("store(iaddr(self, 0), "+val+")", t); w != nil && t.Op == "concat" && len(t.Args) == 2 {
 					stored = mustPass(fn, ci.Block(), okE)
 				}
 			}
@@ -241,6 +256,18 @@ func c14Groups(c *Ctx) {
 		for t2 := int64(-13); t2 <= 13; t2++ {
 			in := bitdom.New(c.P.SSA, c.wordBits())
 			ex, err := in.Call(dec, []bitdom.Val{bitdom.ConstBV(uint64(t1), 8, true), bitdom.ConstBV(uint64(t2), 8, true)})
+			if err == nil && !ex.Panic && len(ex.Results) == 1 {
+				// one int result: the byte, negative for an invalid group
+				if rv, isBV := ex.Results[0].(*bitdom.BV); isBV {
+					if iv, known := rv.Int(); known {
+						okb := bitdom.ConstBV(0, 1, false)
+						if iv >= 0 && iv <= 255 {
+							okb = bitdom.ConstBV(1, 1, false)
+						}
+						ex.Results = []bitdom.Val{bitdom.ConstBV(uint64(iv)&0xff, 8, false), okb}
+					}
+				}
+			}
 			if err != nil || ex.Panic || len(ex.Results) != 2 {
 				r.Undec("C14.group-tables.decode", c.P.Pos(dec.Pos()), "decodeGroup(%d,%d) not foldable: %v", t1, t2, err)
 				return
